@@ -7,6 +7,11 @@
 use std::panic;
 
 use storage_layout_extractor::{
+    extractor::{
+        chain::{version::EthereumVersion, Chain},
+        contract::Contract,
+    },
+    tc,
     disassembly::InstructionStream,
     vm::{
         value::{known::KnownWord, Provenance, RuntimeBoxedVal, RSV, RSVD},
@@ -221,6 +226,49 @@ fn culled_size(p: &str) -> String {
     format!("{{\"violates\": {}, {}\"limit\": {}}}", bad, obs, limit)
 }
 
+/// Run the one-call entry point on `hex` (strict or permissive) and report the outcome:
+/// layout entries as [index, offset, type], or the error text.  A panic is caught by main().
+fn analyze(p: &str) -> String {
+    let code = hex_param(p, "hex").unwrap_or_default();
+    let permissive = param(p, "permissive").unwrap_or(0) == 1;
+    let mut config = Config::default();
+    config.permissive_errors = permissive;
+    if let Some(v) = param(p, "value_size_limit") {
+        config.value_size_limit = v as usize;
+    }
+    let contract = Contract::new(code.clone(), Chain::Ethereum { version: EthereumVersion::Shanghai });
+    let r = storage_layout_extractor::new(contract, config, tc::Config::default(), LazyWatchdog.in_rc()).analyze();
+    match r {
+        Ok(layout) => {
+            let mut entries = Vec::new();
+            let mut sorted = true;
+            let mut prev: Option<(ethnum::U256, usize)> = None;
+            let mut out_of_slot = false;
+            for s in layout.slots() {
+                let key = (s.index.0, s.offset);
+                if let Some(pv) = prev {
+                    if key < pv {
+                        sorted = false;
+                    }
+                }
+                prev = Some(key);
+                if s.offset >= 256 {
+                    out_of_slot = true;
+                }
+                entries.push(format!("[\"{:#x}\", {}, \"{}\"]", s.index.0, s.offset, format!("{:?}", s.typ).replace('"', "'")));
+            }
+            format!(
+                "{{\"violates\": false, \"ok\": true, \"sorted\": {}, \"out_of_slot\": {}, \"entries\": [{}], \"code\": \"{}\"}}",
+                sorted, out_of_slot, entries.join(", "), hex(&code)
+            )
+        }
+        Err(e) => format!(
+            "{{\"violates\": false, \"ok\": false, \"error\": \"{}\", \"code\": \"{}\"}}",
+            format!("{e:?}").replace('"', "'").replace('\\', "/").chars().take(300).collect::<String>(), hex(&code)
+        ),
+    }
+}
+
 fn main() {
     let args: Vec<String> = std::env::args().collect();
     if args.len() < 3 {
@@ -234,6 +282,7 @@ fn main() {
         "fork_first_visit" => fork_first_visit(&p),
         "jump_target_bits" => jump_target_bits(&p),
         "halting_opcode" => halting_opcode(&p),
+        "analyze" => analyze(&p),
         "culled_size" => culled_size(&p),
         "fold_variant" => fold_variant(&p),
         "disassemble_roundtrip" => disassemble_roundtrip(&p),
